@@ -19,10 +19,13 @@ SEEDS="$@"; [ -z "$SEEDS" ] && SEEDS=$(ls -d $V/seeded/*/ | xargs -n1 basename)
   echo "| seed | property | result | violation keys (first 3) | wall |"; echo "|---|---|---|---|---|"; } > $OUT
 for id in $SEEDS; do
   d=$V/seeded/$id; P=$(python3 -c "import json;print(json.load(open('$d/meta.json'))['breaks_property'])")
+  if python3 -c "import json,sys;sys.exit(0 if json.load(open('$d/meta.json')).get('obsolete') else 1)"; then
+    echo "| $id | $P | obsolete (behaviour-preserving on the current tree, see meta.json) | | |" >> $OUT; echo "$id $P obsolete"; continue; fi
   git -C $WT checkout -q -- . ; git -C $WT clean -fdq
   if ! git -C $WT apply $d/patch.diff 2>/dev/null; then echo "| $id | $P | PATCH-DOES-NOT-APPLY | | |" >> $OUT; continue; fi
   t0=$(date +%s)
-  log=$(cd $MUTD && rm -rf replays && ZEPID_REPO=$WT timeout 3000 ./check $P 2>&1)
+  PS=$(python3 -c "import json;m=json.load(open('$d/meta.json'));print(' '.join(m.get('checked_by',[m['breaks_property']])))")
+  log=$(cd $MUTD && rm -rf replays && for Q in $PS; do ZEPID_REPO=$WT timeout 3000 ./check $Q 2>&1; done)
   t1=$(date +%s)
   n=$(echo "$log" | grep -c '^VIOLATION')
   keys=$(cd $MUTD && ls replays/*.json 2>/dev/null | head -40 | xargs -r python3 -c "
